@@ -17,9 +17,20 @@ v_ifchange() {
   rv_tr "R|$RV_T|$_rc|ifchange|$*"
   [ "$_rc" = 0 ] || v_exit "$_rc"
 }
+v_ifchange_cd() { # dir paths-as-seen-from-dir...: the call is made from another working directory
+  _d=$1; shift
+  _rc=0; ( cd "$_d" && redo-ifchange "$@" ) || _rc=$?
+  rv_tr "R|$RV_T|$_rc|ifchange|$*"
+  [ "$_rc" = 0 ] || v_exit "$_rc"
+}
 v_ifchange_soft() { # like v_ifchange but remembers the status instead of exiting (keep-going style scripts)
   _rc=0; redo-ifchange "$@" || _rc=$?
   rv_tr "R|$RV_T|$_rc|ifchange|$*"
+  [ "$_rc" = 0 ] || RV_SOFT=$_rc
+}
+v_redo_soft() { # forced rebuild from inside a script; the status is remembered, the script goes on
+  _rc=0; redo "$@" || _rc=$?
+  rv_tr "R|$RV_T|$_rc|redo|$*"
   [ "$_rc" = 0 ] || RV_SOFT=$_rc
 }
 v_use() { # rel rootrel
